@@ -480,6 +480,31 @@ fn cell_area_measured(x: u64) -> Result<(), String> {
     Ok(())
 }
 
+/// lon/lat (degrees) of the 12 face centres, 20 vertices and 30 edge midpoints of the dodecahedron frame
+pub fn special_lonlats() -> Vec<(f64, f64)> {
+    let ax = axes();
+    let mut pts: Vec<V3> = ax.clone();
+    for i in 0..12 {
+        for j in (i + 1)..12 {
+            if (angle(ax[i], ax[j]) - NEIGHBOUR_ANGLE).abs() < 1e-6 {
+                pts.push(normalize(add(ax[i], ax[j])));
+                for k in (j + 1)..12 {
+                    if (angle(ax[i], ax[k]) - NEIGHBOUR_ANGLE).abs() < 1e-6 && (angle(ax[j], ax[k]) - NEIGHBOUR_ANGLE).abs() < 1e-6 {
+                        pts.push(normalize(add(add(ax[i], ax[j]), ax[k])));
+                    }
+                }
+            }
+        }
+    }
+    pts.iter()
+        .map(|p| {
+            let (t, ph) = to_theta_phi(*p);
+            let ll = to_lon_lat(Spherical::new(Radians::new_unchecked(t), Radians::new_unchecked(ph)));
+            (ll.longitude(), ll.latitude())
+        })
+        .collect()
+}
+
 // ------------------------------------------------------------------------------------------------ generators
 fn cell_at(lon: f64, lat: f64, r: i32) -> Option<u64> {
     guard(|| a5::lonlat_to_cell(LonLat::new(lon, lat), r)).ok().and_then(|x| x.ok())
@@ -586,6 +611,16 @@ pub fn generate_geo(op: &str, rng: &mut crate::ops::Rng, budget: u64, f: &mut dy
                             if !f(vec![hx(c)]) {
                                 return true;
                             }
+                        }
+                    }
+                }
+            }
+            // cells at the face centres, vertices and edge midpoints of the frame
+            for (lon, lat) in special_lonlats() {
+                for r in [3, 6, 11, 17, 24, 29] {
+                    if let Some(c) = cell_at(lon, lat, r) {
+                        if !f(vec![hx(c)]) {
+                            return true;
                         }
                     }
                 }
